@@ -91,9 +91,10 @@ def run_case(case):
             if info and cls == "ok":
                 for (delay, dd, dt, ok) in info["confs"]:
                     if delay == "early":
-                        emit_conf(dst + dd, (tag + dt) % 256, ok)     # overtakes the enqueue answer
+                        emit_conf(dst + dd, (tag + dt) % (65536 if ver >= 14 else 256), ok)     # overtakes the enqueue answer
                     else:
-                        loop.call_later(delay / 1000.0, emit_conf, dst + dd, (tag + dt) % 256, ok)
+                        # (version 14 carries a 16-bit tag in the confirmation: a tag that differs only above the low byte is another tag)
+                        loop.call_later(delay / 1000.0, emit_conf, dst + dd, (tag + dt) % (65536 if ver >= 14 else 256), ok)
             return [st, 7]
         ncp.handlers["sendUnicast"] = lambda n, a: on_send("unicast", a)
         ncp.handlers["sendMulticast"] = lambda n, a: on_send("multicast", a)
@@ -199,6 +200,8 @@ def gen_cases(ctx):
         [(30, 0, 0, True), (35, 0, 0, True)],     # duplicate
         [(30, 0, 0, False), (40, 0, 0, True)],    # failure then success: the first counts
         [(20, 0, 255, True), (25, 255, 0, True)],
+        [(20, 0, 256, True)],                     # version 14: the same low byte, another 16-bit tag (earlier versions: the own tag again)
+        [(20, 0, 512, False), (40, 0, 0, True)],
     ]
     k = 0
     for ver in tuple(range(4, 15)) + (15, 16):      # NCPs newer than the newest known version run on the newest tables
